@@ -90,6 +90,44 @@ theorem release_nonslicey {t : Ty} (ht : t.isSlicey = false) (n : Nat) :
     t.releaseLayout n = allocLayoutBoxNew bits t.elemLay := by
   cases t <;> first | rfl | (simp [Ty.isSlicey] at ht)
 
+/-! ## a `dyn` view of a sized payload (`Arc<dyn Tr>`, `UniqueArc<dyn Tr>`)
+
+It sees one element, considers it initialised, and releases exactly like the sized view: same
+destructor events, same `dealloc` layout. -/
+
+theorem dyn_elemsInit : Ty.dyn.elemsInit = true := rfl
+
+theorem viewLen_dyn {m : Mem} {h : HV} (hk : h.kind.isThin = false) : viewLen m { h with ty := .dyn } = 1 := by
+  rw [viewLen_fat (h := { h with ty := .dyn }) hk]; rfl
+
+theorem decr_dyn_sized (m : Mem) (b n : Nat) : decr m b .dyn n = decr m b .sized n := rfl
+
+/-- `UniqueArc<T>` → `UniqueArc<dyn Tr>` applies to every unique handle of a sized payload -/
+theorem toDyn_uniq {m : Mem} {h : HV} (hk : h.kind = .uniq) (hty : h.ty = .sized) :
+    runConv m h .toDyn = some { h with ty := .dyn } := by
+  simp [runConv, hk, hty]
+
+/-- … and the result can be made shareable: an `Arc<dyn Tr>` to the same block -/
+theorem shareable_uniq_dyn {m : Mem} {h : HV} (hk : h.kind = .uniq) :
+    runConv m { h with ty := .dyn } .shareable = some { h with kind := .arc, ty := .dyn } := by
+  simp [runConv, hk, UniqueArc.shareable]
+
+/-- dropping the `UniqueArc<dyn Tr>` does to memory exactly what dropping the `UniqueArc<T>` does -/
+theorem dropHandle_uniq_dyn {m : Mem} {h : HV} (hk : h.kind = .uniq) (hty : h.ty = .sized) :
+    dropHandle m { h with ty := .dyn } = dropHandle m h := by
+  have hnt : h.kind.isThin = false := by rw [hk]; rfl
+  have h1 : viewLen m h = 1 := by rw [viewLen_fat hnt, hty]; rfl
+  simp only [dropHandle, hk, Arc.drop, viewLen_dyn hnt, h1, hty]
+  rfl
+
+/-- `Deref` through the `dyn` view shows the same value -/
+theorem digest_uniq_dyn {m : Mem} {h : HV} (hk : h.kind = .uniq) (hty : h.ty = .sized) :
+    digest m { h with ty := .dyn } = digest m h := by
+  have hnt : h.kind.isThin = false := by rw [hk]; rfl
+  have h1 : viewLen m h = 1 := by rw [viewLen_fat hnt, hty]; rfl
+  simp only [digest, viewLen_dyn hnt, h1, hty]
+  rfl
+
 /-! ## handle transformations -/
 
 namespace Ok
@@ -305,7 +343,17 @@ theorem runConv_ok {h' : HV} {c : Conv} (hc : runConv m h c = some h') (ho : Ok 
       · intro h; cases h
       · intro n; simp only [Arc.from_raw, hcond.2]; exact release_dyn_sized n
       · intro h; cases h
-    · cases hc
+    · split at hc
+      · rename_i hcond; cases hc
+        -- `UniqueArc<T>` → `UniqueArc<dyn Tr>`: same length-free pointer, same release layout
+        refine ho.retype (h' := { h with ty := .dyn })
+          (isThin_of_eq hcond.1 rfl) (isThin_of_eq hcond.1 rfl) rfl ?_ ?_ ?_ ?_
+        · simp [hcond.2, Ty.isSlicey]
+        · intro h; cases h
+        · intro n; simp only [hcond.2]; exact release_dyn_sized n
+        · intro hq; have : h.kind = .offset := hq
+          rw [hcond.1] at this; cases this
+      · cases hc
 
 end
 
